@@ -274,6 +274,11 @@ def x1_strip(text, log, keep_default=False):
             log.add("X1:derive-drop(" + ",".join(dropped) + ")")
         return ("#[derive(" + ", ".join(keep) + ")]" if keep else "") + _nl(m.group(0))
     text = re.sub(r"#\[derive\(([^\]]*)\)\]", derive, text)
+
+    def static_str(m):
+        log.add("X1:const-&str-elided-'static-made-explicit")
+        return m.group(1) + "&'static str"
+    text = re.sub(r"(?m)^([ \t]*(?:pub(?:\([a-z]+\))?[ \t]+)?const[ \t]+[A-Z][A-Z0-9_]*[ \t]*:[ \t]*)&str\b", static_str, text)
     return text
 
 
@@ -484,7 +489,7 @@ def x3b_by_value_writer(text, log):
     handed to callees generic in W2) become the reborrow `&mut *writer` (callee at W2 = VSink).
     `impl Write for &mut W` forwards every call, so both forms drive the same sink."""
     t2 = re.sub(r"<\s*W\s*:\s*Write\s*>", "", text)
-    t2 = re.sub(r"\bmut writer\s*:\s*W\b", "writer: &mut VSink", t2)
+    t2 = re.sub(r"\b(?:mut )?writer\s*:\s*W\b", "writer: &mut VSink", t2)
     t2 = t2.replace("&mut writer", "&mut *writer").replace("writer.by_ref()", "&mut *writer")
     t2 = re.sub(r"writer\.write_all\(&self\.(clsid|fmtid)\)", r"writer.write_all16(&self.\1)", t2)
     t2 = re.sub(r"::<LittleEndian>", "", t2)
@@ -578,7 +583,93 @@ def x3s_into_string(text, log):
     return t3
 
 
+def x3c_container(text, log):
+    """the cfb dependency is replaced by its model: `cfb::CompoundFile<F>` -> `VComp`
+    (prelude/comp.rs); with it the type parameter F disappears: `Package<F>` -> `Package`."""
+    t2 = re.sub(r"\bcfb::CompoundFile<F>", "VComp", text)
+    t2 = re.sub(r"\bPackage<F>", "Package", t2)
+    if t2 != text:
+        log.add("X3c:cfb::CompoundFile<F>->VComp")
+    return t2
+
+
+def x3v_by_value_stream(text, log):
+    """serializers that the code under contract calls with a writer BY VALUE: the bound
+    `W: Write` becomes `W: VWriter` (prelude/comp.rs: a container stream, or `&mut Vec<u8>`);
+    used for imported (trusted) contracts only, so the body is not emitted."""
+    t2 = re.sub(r"<\s*W\s*:\s*Write\s*>", "<W: VWriter>", text)
+    t2 = re.sub(r"\bmut\s+writer\s*:\s*W\b", "writer: W", t2)
+    if t2 != text:
+        log.add("X3v:W:Write->W:VWriter(by value)")
+    return t2
+
+
+def x11_scope_end_drop(text, log):
+    """Rust drops a local at the end of its block unless it was moved.  For every
+    `let [mut] v = ...create_stream(...)?;` the implicit drop is made explicit: `vx_drop(v);` is
+    inserted before the closing brace of the enclosing block -- unless v is moved inside the block,
+    i.e. occurs as a whole call argument `(v)` / `, v)` / `(v,` (a by-value use of a non-Copy
+    value).  Early exits through `?` leave the block before that point and are not affected."""
+    masked = mask_source(text)
+    out = text
+    shift = 0
+    for m in re.finditer(r"\blet\s+(?:mut\s+)?([a-z_][a-z0-9_]*)\s*(?::[^=;]+)?=[^;]*?\bcreate_stream\([^;]*;", masked):
+        v = m.group(1)
+        # enclosing block: scan forward from the end of the statement to the unmatched `}`
+        depth = 0
+        k = m.end()
+        while k < len(masked):
+            if masked[k] == "{":
+                depth += 1
+            elif masked[k] == "}":
+                if depth == 0:
+                    break
+                depth -= 1
+            k += 1
+        if k >= len(masked):
+            continue
+        block = masked[m.end():k]
+        moved = re.search(r"[(,]\s*%s\s*[,)]" % v, block)
+        if moved:
+            log.add("X11:`%s` moved into a callee (no scope-end drop)" % v)
+            continue
+        ins = "vx_drop(%s); " % v
+        out = out[:k + shift] + ins + out[k + shift:]
+        shift += len(ins)
+        log.add("X11:scope-end drop of `%s` made explicit" % v)
+    return out
+
+
+def x10_fields(text, keep, log):
+    """struct fields that no extracted function reads or writes are dropped (keep-list given by
+    the template; a function touching a dropped field no longer compiles -> UNDECIDED)."""
+    masked = mask_source(text)
+    b = masked.find("{")
+    e = match_brace(masked, b)
+    body = text[b + 1:e]
+    mbody = masked[b + 1:e]
+    starts = [m.start() for m in re.finditer(r"(?m)^[ \t]*(?:pub(?:\([a-z]+\))?[ \t]+)?[a-z_][a-z0-9_]*[ \t]*:", mbody)]
+    pieces = []
+    for i, st in enumerate(starts):
+        en = starts[i + 1] if i + 1 < len(starts) else len(body)
+        name = re.match(r"[ \t]*(?:pub(?:\([a-z]+\))?[ \t]+)?([a-z_][a-z0-9_]*)", mbody[st:en]).group(1)
+        pieces.append((name, st, en))
+    res = body[:starts[0]] if starts else body
+    dropped = []
+    for (name, st, en) in pieces:
+        if name in keep:
+            res += body[st:en]
+        else:
+            res += _nl(body[st:en])
+            dropped.append(name)
+    log.add("X10:fields-dropped(" + ",".join(dropped) + ")")
+    return text[:b + 1] + res + text[e:]
+
+
 OPTS = {
+    "x3c": x3c_container,
+    "x3v": x3v_by_value_stream,
+    "x11": x11_scope_end_drop,
     "x3s": x3s_into_string,
     "x5f": x5f_for_enum_kv,
     "x5e": x5e_arm_ref_pattern,
@@ -786,6 +877,8 @@ class Extractor:
                 text = re.sub(r"#\[derive\(([^\]]*)\)\]", lambda m: (log.add("X1:derive-all-dropped(" + _norm(m.group(1)) + ")"), _nl(m.group(0)))[1], text)
             elif o.startswith("guard:"):
                 pass
+            elif o.startswith("fields:"):
+                text = x10_fields(text, set(o[7:].split(",")), log)
             elif o in OPTS:
                 text = OPTS[o](text, log)
             elif o not in ("x8drop", "x4impl", "keepdefault"):
